@@ -11,11 +11,11 @@ def builds(tier):
 def run(chk):
     asan = vlib.build(SRC, 'asan')
     T = chk.thorough()
-    chk.absorb(vlib.run_sharded(asan, 400000 if T else 24000, chk.seed, chk.tier, ['--mode', 'generic'], tag='c11a'),
+    chk.absorb(vlib.run_sharded(asan, 320000 if T else 24000, chk.seed, chk.tier, ['--mode', 'generic'], tag='c11a'),
                'random histories through RelationsManager<TestRM,N,W,R,CheckOrder> (8 type-switch combinations + 3 without order check)')
-    chk.absorb(vlib.run_sharded(asan, 100000 if T else 8000, chk.seed, chk.tier, ['--mode', 'mp'], tag='c11b'),
+    chk.absorb(vlib.run_sharded(asan, 80000 if T else 8000, chk.seed, chk.tier, ['--mode', 'mp'], tag='c11b'),
                'random histories through MultipolygonManager<SpyAssembler> (spy delegates to the real Assembler)')
-    chk.absorb(vlib.run_sharded(asan, 160 if T else 16, chk.seed, chk.tier, ['--mode', 'gc'], tag='c11c', timeout=3000),
+    chk.absorb(vlib.run_sharded(asan, 128 if T else 16, chk.seed, chk.tier, ['--mode', 'gc'], tag='c11c', timeout=3000),
                'large histories (tens of thousands of removals) sized so that ItemStash garbage collection runs mid-stream')
     chk.absorb(vlib.run_sharded(asan, 40000 if T else 4000, chk.seed, chk.tier, ['--mode', 'cbuf'], tag='c11d'),
                'CallbackBuffer with initial/max sizes {64,128,1 KiB,4 KiB,1 MiB}x{0,64,100,1 KiB,5000,800 KiB} driven like the managers drive it')
